@@ -2,7 +2,7 @@
 from __future__ import annotations
 
 import ast
-from typing import Dict, List, Optional, Set, Tuple
+from typing import Any, Dict, List, Optional, Set, Tuple
 
 from .. import AnalysisError
 from ..absint import EvalRaise, EvalReturn, Evaluator, Opaque, Unknown
@@ -309,7 +309,48 @@ def check_map(ctx) -> None:
         for k, val in zip(v.keys, v.values):
             pairs.append((norm(k).split(".")[-1], norm(val)))
     else:
-        raise AnalysisError("OPTLANG_TO_EXCEPTIONS_DICT is not a literal table")
+        # a computed table: the module-level expressions are evaluated (statuses are optlang's strings, the exception
+        # classes stand for themselves)
+        from ..absint import Opaque
+
+        class _NS:
+            pass
+
+        statuses = ("OPTIMAL", "INFEASIBLE", "UNBOUNDED", "FEASIBLE", "UNDEFINED", "NOFEASIBLE", "SUBOPTIMAL", "INF_OR_UNB", "ITERATION_LIMIT", "TIME_LIMIT", "NUMERIC", "ABORTED", "SPECIAL", "LOADED", "CUTOFF", "MEMORY_LIMIT", "NODE_LIMIT", "INPROGRESS", "USER_OBJ_LIMIT", "SOLUTION_LIMIT", "INTERRUPTED")
+        iface = _NS()
+        for st in statuses:
+            setattr(iface, st, st.lower())
+        optl = _NS()
+        optl.interface = iface
+
+        class _Exc:
+            def __init__(self, name):
+                self.name = name
+
+        env: Dict[str, Any] = {"optlang": optl, "interface": iface}
+        env.update({st: st.lower() for st in statuses})
+        for cname, ci in prog.classes.items():
+            if ci.unit is ex:
+                env[cname] = _Exc(cname)
+        def attr(e, a):
+            base = e.eval(a.value)
+            if isinstance(base, _NS) and hasattr(base, a.attr):
+                return getattr(base, a.attr)
+            raise Unknown(f"attribute {a.attr}")
+        try:
+            for name, exprs in ex.globals.items():
+                if name != "OPTLANG_TO_EXCEPTIONS_DICT" and exprs and name not in env:
+                    try:
+                        env[name] = Evaluator(env, on_attr=attr).eval(exprs[-1])
+                    except Unknown:
+                        pass
+            table = Evaluator(env, on_attr=attr).eval(v)
+        except Unknown as exc:
+            raise AnalysisError(f"OPTLANG_TO_EXCEPTIONS_DICT is neither a literal table nor evaluable: {exc}")
+        if not isinstance(table, dict) or isinstance(table, Opaque) or not all(isinstance(x, _Exc) for x in table.values()):
+            raise AnalysisError("OPTLANG_TO_EXCEPTIONS_DICT is neither a literal table nor evaluable")
+        for k, val in table.items():
+            pairs.append((str(k).upper() if isinstance(k, str) else repr(k), val.name))
     keys = {k for k, _ in pairs}
     if {"INFEASIBLE", "UNBOUNDED"} <= keys:
         ctx.ok("C04.map", None, "OPTLANG_TO_EXCEPTIONS_DICT keys", f"covers {sorted(keys)}")
